@@ -150,6 +150,19 @@ def run(tier, v):
                 _sh.rmtree(proj, ignore_errors=True)
     v.count(npairs)
     v.subspace("order independence through --check: two-file trees, every ordered pair of equally long single-directive-line files", npairs)
+    # cross-feature product (in-process against the model, and through the CLI)
+    import spaces
+    cross = list(spaces.cross_feature_product())
+    res = vh.eval_cases([(c[0], c[1]) for c in cross])
+    for (ci, code, lab), r in zip(cross, res):
+        v.count()
+        m = gen.compare(code, lab[2], r)
+        if m:
+            v.violation("cross-feature:%s" % m[0], {"file": code, "features": repr(lab[1]), "detail": m[1], "expected": repr(lab[2])[:300], "got": repr(r)[:300]},
+                        replay_files={"case.rs": code})
+    nbx, nfx = clibind.bind(cross, lambda k: (k[0], k[1], k[2][2], k[2][1]), v)
+    v.subspace("cross-feature product: directive x target x key-values{none, a = 1, ref = 5, ref = x} x eol x layout x second statement on the same line x "
+               "position in the file x style (model + CLI)", len(cross) + nbx)
     tuples = [t for t in space("quick") if len(t[0]) <= 1 and t[4] == 0]
     nb, nf = clibind.bind(tuples, lambda t: next(build([t])), v)
     v.subspace("CLI pass over the sequences of length <= 1 (LF): --check report and edit diff equal the in-process entries", nb)
